@@ -4,7 +4,6 @@
   default (`DefaultErrorRetry`).
 -/
 import Desync.Properties.C03StoreOpts
-import Desync.Properties.C03StoreOptsGen
 
 namespace Desync.C14
 open Desync Desync.StoreOpts
@@ -16,15 +15,6 @@ theorem retry_budget_follows_config (cmd : CmdStoreOptions) (o : StoreOptions) :
     (cmd.chErrorRetry = false → (mergedWith cmd defaults).errorRetry = Gen.DefaultErrorRetry.toNat) ∧
     (cmd.chErrorRetryBaseInterval = false → (mergedWith cmd o).errorRetryBaseInterval = o.errorRetryBaseInterval) := by
   refine ⟨?_, ?_, ?_, ?_⟩ <;> intro h <;> simp [mergedWith, defaults, h]
-
-/-- regenerated: what reaches the backends -/
-theorem gen_store_retry (i : Gen.StoreoptsIn) :
-    (C03.genSFL i).errorRetry = (if i.changed "error-retry" then i.flagI "error-retry" else i.cfgI "ErrorRetry") ∧
-    (C03.genISFL i).errorRetry = (if i.changed "error-retry" then i.flagI "error-retry" else i.cfgI "ErrorRetry") ∧
-    (C03.genSFL i).errorRetryBaseInterval =
-      (if i.changed "error-retry-base-interval" then i.flagI "error-retry-base-interval" else i.cfgI "ErrorRetryBaseInterval") ∧
-    Gen.storeoptsSFLUniform = true ∧ Gen.storeoptsISFLUniform = true := by
-  refine ⟨?_, ?_, ?_, C03.gen_store_dispatch.1, C03.gen_store_dispatch.2.1⟩ <;> optwire
 
 example : (mergedWith ⟨1, "", "", "", false, 9, 0, false, false, false, false, true, false⟩ defaults).errorRetry = 9 ∧
     (mergedWith ⟨1, "", "", "", false, 9, 0, false, false, false, false, false, false⟩ defaults).errorRetry = 3 := by decide
